@@ -197,6 +197,47 @@ def run_request(served, supported, contexts, probe, max_len=16384, called='SRV',
     return expected
 
 
+def late_service_case(first):
+    """The application enables a service from inside its on_association_request hook (for this calling title, say).
+    What the acceptor then reports as accepted is what it serves - on this very association, and on the next."""
+    from pynetdicom2 import applicationentity
+    case = {'late_service': True, 'first': first}
+
+    class PerPeer(applicationentity.AE):
+        def on_association_request(self, asce, assoc):
+            if ABS['C'] not in self.supported_scp:
+                self.add_scp(SERVICES['C'])
+    ae = fd.make_ae('SRV', [TS[0], TS[1]], cls=PerPeer)
+    ae.add_scp(SERVICES['A'])
+    try:
+        for round_ in (1, 2):
+            contexts = [(1, 'A', [0]), (3, 'C', [1, 0]), (5, 'Z', [0])] if first == 'A' else [(1, 'C', [1]), (3, 'A', [0])]
+            spec = fd.rq_spec([(cid, ABS[a], [TS[i] for i in tl]) for cid, a, tl in contexts], 16384, 'SRV', 'LATE')
+
+            def plan(dul):
+                dul.push_pdu(spec)
+                for cid, a, tl in contexts:
+                    if a != 'Z':
+                        dul.push_msg({0x0002: ABS[a], 0x0100: 0x0030, 0x0110: cid}, None, cid)
+                dul.push_pdu({'t': 5, 'r1': 0, 'r2': 0})
+            del CALLS[:]
+            acc, fac, exc = fd.run_acceptor(ae, [plan])
+            dul = fac.instances[0]
+            acs = dul.sent_pdus(2)
+            answers = [i for i in acs[0]['spec']['items'] if i['t'] == 0x21] if acs else []
+            results = [(i['id'], i['result']) for i in answers]
+            want = [(cid, 0 if a != 'Z' else None) for cid, a, tl in contexts]
+            ok = len(results) == len(want) and all(r[0] == w[0] and ((r[1] == 0) == (w[1] == 0)) for r, w in zip(results, want))
+            served = [(n, c[0]) for n, c, m in CALLS]
+            want_served = [(a, cid) for cid, a, tl in contexts if a != 'Z']
+            if exc is not None or not ok or served != want_served:
+                raise Violation('C09:late-service', 'association %d (service C enabled by the on_association_request hook of the '
+                                'first): answers %r, services invoked %r (expected %r), exception %r'
+                                % (round_, results, served, want_served, exc), case)
+    finally:
+        ae.server_close()
+
+
 def run_many_classes(ctx):
     """Entities that serve MORE than 128 SOP classes (the storage provider the library ships has 139; a request
     can carry at most 128 contexts, an entity may serve any number): every class add_scp was called for is
@@ -335,6 +376,9 @@ def cleanup():
 
 def run(ctx):
     quiet_warnings()
+    for first in ('A', 'C'):
+        ctx.case(('late-service', first), True, labels=['service-enabled-in-hook'], sample={'late_service': first})
+        ctx.check(late_service_case, first)
     ctx.rule = ('exhaustive: 8 served-class subsets (the entity optionally being a service USER of all other, or of all, classes; role-selection items for the proposed classes in half of the requests) x 16 supported-syntax subsets x all requests with <=1 (quick) / '
                 '<=2 (thorough) contexts over {3 served candidates, 1 never-served} x all 40 ordered lists of 1-3 '
                 'syntaxes from 4; entities serving 139 / 200 classes with classes from every part of the list proposed; Hypothesis: 0-8 contexts with arbitrary odd ids, generated AE titles, application '
@@ -358,6 +402,9 @@ def run(ctx):
 
 def replay(case):
     quiet_warnings()
+    if case.get('late_service'):
+        late_service_case(case['first'])
+        return
     if 'many_classes' in case:
         from ..common import Ctx
         sub = Ctx('C09', 'quick', 1)
